@@ -505,6 +505,42 @@ func kindClass(k string) string {
 	return k
 }
 
+// c18ManySignatures: hundreds of SIG(0) signatures per ECDSA key over one small message, so that the
+// one-in-256 short r and s of the fixed-width RFC 6605 encoding occur; each must verify both ways.
+func c18ManySignatures(w *core.W, j int) {
+	alg := []uint8{dns.ECDSAP256SHA256, dns.ECDSAP384SHA384, dns.ECDSAP256SHA256, dns.ED25519}[j%4]
+	k, err := getKey(alg, algBits[alg][0], "many.example.", 512, 3)
+	if err != nil {
+		w.Inconclusive("keygen:" + err.Error())
+		return
+	}
+	key := &dns.KEY{DNSKEY: *dns.Copy(k.Key).(*dns.DNSKEY)}
+	key.Hdr.Rrtype = dns.TypeKEY
+	pub, _ := base64.StdEncoding.DecodeString(key.PublicKey)
+	keyName := mustName("many.example.")
+	n := map[uint8]int{dns.ECDSAP256SHA256: 400, dns.ECDSAP384SHA384: 250, dns.ED25519: 50}[alg]
+	m := new(dns.Msg)
+	m.SetUpdate("example.")
+	now := uint32(time.Now().Unix())
+	for i := 0; i < n; i++ {
+		m.Id = uint16(j*1000 + i)
+		sig := &dns.SIG{RRSIG: dns.RRSIG{KeyTag: key.KeyTag(), SignerName: "many.example.", Algorithm: alg, Inception: now - 7200, Expiration: now + 7200}}
+		out, err := sig.Sign(k.Priv, m.Copy())
+		if err != nil {
+			w.Violation("C18/sign-fails/many/"+algName(alg), fmt.Sprintf("signature %d of %d: %v", i, n, err), nil)
+			return
+		}
+		w.Eval(1)
+		ok, why := sig0ModelVerify(out, keyName, alg, pub, now)
+		verr := sig.Verify(key, out)
+		if !ok || verr != nil {
+			w.Violation("C18/own-signature-rejected/many/"+algName(alg), fmt.Sprintf("signature %d of %d over one small message: independent verification %v (%s), Verify: %v", i, n, ok, why, verr), map[string]any{"signed": hx(out)})
+			return
+		}
+	}
+	w.Count("many_signatures", n)
+}
+
 // c18WindowBoundary: the validity window is inclusive at both ends. SIG.Verify reads the wall clock
 // itself, so a verdict is taken only when the clock showed the same second before and after the call
 // (then that second is the one Verify used); otherwise the attempt is repeated.
@@ -556,7 +592,7 @@ func c18WindowBoundary(w *core.W, j int) {
 }
 
 func init() {
-	plan, run := sections(section{"messages", tiered(180, 6000), c18Case}, section{"window-boundary", tiered(8, 100), c18WindowBoundary})
+	plan, run := sections(section{"messages", tiered(180, 6000), c18Case}, section{"window-boundary", tiered(8, 100), c18WindowBoundary}, section{"many-signatures", tiered(12, 200), c18ManySignatures})
 	core.Register(&core.Monitor{
 		ID: "C18", Level: "fault_enumeration", Plan: plan, Run: run, Terminates: true, CaseTimeout: 300e9,
 		Rule: "messages {header-only update, heavily compressible, 254..512 additional records, pool names, all registry types} x Compress on/off x RSASHA1/256/512, ECDSA P-256/P-384, Ed25519; oracle = independent RFC 2931 verification (model walk + Go crypto): Sign must succeed, output = packed message || SIG with ARCOUNT+1, verifies independently and with Verify (original and re-decoded SIG); " +
